@@ -26,7 +26,8 @@ PROPS = {
                               "PgBifrost.Props.C01.ledger_emit_unsafe_witness", "PgBifrost.Props.C01.sys_ledger_trace_contract",
                               "PgBifrost.Props.C01.sys_tracker_never_panics", "PgBifrost.Props.C01.sys_ack_safe",
                               "PgBifrost.Props.C01.sys_crash_restart_no_loss", "PgBifrost.Props.C01.sys_nostale_needs_schedule_witness",
-                              "PgBifrost.Props.C01.runner_wiring_as_modelled", "PgBifrost.Props.C01.flush_position_safe"],
+                              "PgBifrost.Props.C01.runner_wiring_as_modelled", "PgBifrost.Props.C01.flush_position_safe",
+                              "PgBifrost.Props.C01.ledger_as_in_source", "PgBifrost.Props.C01.release_condition_as_in_source"],
         "partial": "full statement false on the unchanged tree (finding F1): the ledger theorem is proved under NoStale, the "
                    "witness theorem proves the full one false. Layers: L1 ledger (theorem), L2 batcher contract (C04 "
                    "seen_before_dispatch*, seen_log_exact, txns_global_accounting), L3 workers (C11-C14), L4 client (C03); the "
@@ -40,7 +41,7 @@ PROPS = {
         "modules": ["PgBifrost.Props.C02"],
         "components": ["ledger", "client", "batcher", "pipeline", "syscorr"],
         "required_theorems": ["PgBifrost.Props.C02.ledger_drains_partial", "PgBifrost.Props.C02.recovery_commit_closes_open_delivery",
-                              "PgBifrost.Props.C02.sys_quiesces"],
+                              "PgBifrost.Props.C02.sys_quiesces", "PgBifrost.Props.C02.ledger_model_is_source"],
         "partial": "ledger layer proved under NoStale (finding F1 makes the full statement false). Client error recovery: "
                    "recovery_commit_closes_open_delivery is about the model of the repaired client (fix: commit for F2); "
                    "system-level quiescence is decided by the pipeline harness monitors (caughtUp, ledger empty), not one theorem",
